@@ -66,6 +66,10 @@ THEOREMS = [
     "JanetModel.Props.C11.eof_after_any_bytes",
     "JanetModel.Props.C11.eof_outcome_any",
     "JanetModel.Props.C11.finish_drains",
+    "JanetModel.Props.C11.stack_push_in_bounds",
+    "JanetModel.Props.C11.capacity_invariant",
+    "JanetModel.Props.C11.consume_capacity",
+    "JanetModel.Props.C11.state_query_scratch_in_bounds",
 ]
 ENV = dict(os.environ, ASAN_OPTIONS="detect_leaks=0:abort_on_error=0", UBSAN_OPTIONS="print_stacktrace=1")
 BAD_MARKS = ("PANIC", "SECOND-ERROR", "BADCOUNT", "SHORT", "NOTNIL", "BADWRAP", "NOT-A-STRING", "BADOP", "bad-op")
@@ -727,6 +731,7 @@ def run(ctx, replay_lines=None):
         "texts": len(texts), "schedules_per_text": nsched, "parser_runs": len(lines),
         "oracle_failures": len(fails), "history_independence_forms_checked": hist_checked, "sequence_texts": len(seqs), "correspondence_runs": model_lines, "correspondence_diffs": len(diffs),
         "jdn_terms": len(rt_lines), "jdn_results": dict(rt_stats), "jdn_printer_correspondence_diffs": len(pdiffs),
+        "capacity_dumps_compared": sum(o.count(" cap:") for o in outs) if exe else 0,
         "jdn_model_roundtrip_diffs": len(mdiffs), "jdn_output_texts_through_both_parsers": len(jtexts), "jdn_output_parser_runs": jruns,
         "jdn_output_parser_diffs": len(jdiffs),
         "jdn_output_len_min_med_max": ([min(len(t["bytes"]) for t in jtexts), sorted(len(t["bytes"]) for t in jtexts)[len(jtexts) // 2],
@@ -736,9 +741,11 @@ def run(ctx, replay_lines=None):
     return ctx.finish("proof", cov, assumptions=[
         "number tokens: token -> number? is an abstract parameter of the model and of the theorems (janet_scan_numeric is C13's); the harness logs every "
         "call the real parser makes and hands the table to the model",
-        "model covers parser/new, consume, byte, eof, status, produce (wrapped or not), has-more, where (read), error, flush, clone, state; parser/insert and "
-        "parser/where with arguments (setters) are not modelled",
-        "%j of tables/structs with more than one entry: slot order comes from hashing (C03/C04); covered by the implementation round-trip oracle, not by the printer model",
+        "model covers parser/new, consume, byte, eof, status, produce (wrapped or not), has-more, where (read and set), error, flush, clone, state, insert; "
+        "capacities of the three parser stacks are an overlay model (Parse/Cap.lean) compared with bufcap/statecap/argcap after every dump; GC marking and OOM paths are not modelled",
+        "jdn_roundtrip: numbers under NumOK (scanner inverts the formatter on printed numbers; C13); result equal up to tuple source-map positions; dictionaries printed in "
+        "association-list order (the C prints hash-slot order: %j texts of dictionaries with more than one entry are compared modulo pair order, and the real text goes through both parsers)",
+        "model = C is tested (correspondence incl. internal struct fields), not proved",
     ])
 
 
